@@ -49,9 +49,8 @@ class Parser:
 
     def _parse_file(self, path: Path) -> NamedModule | None:
         """Converts a given python file to an ast module and its name."""
-        absolute_path = path.resolve()
-        if self._file_should_be_parsed(absolute_path):
-            with open(absolute_path) as file:
+        if self._file_should_be_parsed(path):
+            with open(path) as file:
                 code = file.read()
 
             module_name = self._get_module_name(path)
